@@ -802,6 +802,10 @@ class Executor:
         if getattr(self, 'setitem_hook', None) is not None:
             if self.setitem_hook(self, obj, k, v) is True:
                 return
+        if isinstance(obj, VList) and obj.kind == 'ndarray' and obj.attrs.get('dtype') == 'any' and is_scalar(exact(v)) and \
+                not isinstance(exact(v), (int, bool)) and not (isinstance(exact(v), z3.ExprRef) and z3.is_int(exact(v))):
+            # a real-valued store into an array whose element type the caller's values decide (integer input -> the value is truncated)
+            self.ctx.log.append(('dtype-risk', obj, v, getattr(obj, 'owner', None)))
         if isinstance(obj, VList):
             if isinstance(k, int):
                 if not -len(obj.items) <= k < len(obj.items):
@@ -1515,8 +1519,11 @@ class Executor:
             ex._mutated(obj, 'pop')
             return obj.items.pop(i)
 
-        def copy():
-            return VList(obj.items, obj.kind)
+        def copy(*a, **k):
+            r = VList(obj.items, obj.kind)
+            if obj.attrs.get('dtype'):
+                r.attrs['dtype'] = obj.attrs['dtype']        # a copy keeps the element type of its source
+            return r
 
         def index(x):
             for i, y in enumerate(obj.items):
@@ -2334,10 +2341,20 @@ class Executor:
         return None
 
     def np_array(self, x, copy=None, dtype=None, **kw):
+        # element type: arrays are modelled over the reals; what is tracked is only whether the element type is *fixed by the code*
+        # (dtype=float given) or *decided by the caller's values* (attrs['dtype'] == 'any' on an input the contract marked so, inherited by
+        # numpy.array / asarray of it without a dtype): storing a non-integer into the latter truncates when the caller passed integers.
+        def tag(r, src):
+            if isinstance(r, VList):
+                if dtype is not None:
+                    r.attrs['dtype'] = 'fixed'
+                elif isinstance(src, VList) and src.attrs.get('dtype'):
+                    r.attrs['dtype'] = src.attrs['dtype']
+            return r
         if isinstance(x, (tuple, list)):
-            return VList([exact(i) for i in x], 'ndarray')
+            return tag(VList([exact(i) for i in x], 'ndarray'), None)
         if isinstance(x, VList):
-            return VList(x.items, 'ndarray')
+            return tag(VList(x.items, 'ndarray'), x)
         if isinstance(x, Tm):
             return Tm('call:numpy.array', x)
         if is_scalar(x):
